@@ -358,6 +358,59 @@ def tiny_instance(rng):
             return G, walks, ws
 
 
+def selfloop_instance(rng):
+    """DAG skeleton whose only cycles are SELF-LOOPS: 2-3 branches with distinct values from one or two sources converge on
+    an inner node a that carries a self-loop (walk j goes round it m_j times), then to the sink; optionally a second
+    looped node.  Every edge value is a sum of branch values with multiplicities, so the min-gen-set lower bound is exact
+    only if multiplicities are allowed.  Returns (G, walks, weights)."""
+    while True:
+        nb = rng.choice([2, 2, 3])
+        vals = rng.sample([1, 2, 3, 4], nb)
+        mults = [rng.choice([0, 0, 1, 2, 2, 3]) for _ in range(nb)]
+        if not any(m >= 2 for m in mults):
+            continue
+        # mostly keep the loop value below the total flow: otherwise MinGenSet (generators sum to the total) is infeasible
+        # and the lower bound is not used at all
+        if rng.random() < 0.9 and sum(m * v for m, v in zip(mults, vals)) > sum(vals):
+            continue
+        two_sources = rng.random() < 0.3
+        second_loop = nb == 2 and rng.random() < 0.3
+        walks = []
+        for j in range(nb):
+            src = ("s%d" % j) if two_sources else "s"
+            w = [src, "x%d" % j] + ["a"] * (1 + mults[j])
+            if second_loop:
+                w += ["b"] * (1 + (j % 2))
+            walks.append(w + ["t"])
+        f = gen2.superpose(rng, None, walks, vals)
+        box = 1
+        for v in f.values():
+            box *= v + 1
+        if box > 60000 or len(f) > 9:
+            continue
+        es = list(f); rng.shuffle(es)
+        G = nx.DiGraph()
+        for (u, v) in es:
+            G.add_edge(u, v, flow=int(f[(u, v)]))
+        return G, walks, vals
+
+
+def staged_instance(b1, b2, loop):
+    """2 stages of parallel branches through a hub m (b1 branches into m, b2 out of it), unit weight per combination, and
+    ALL b1*b2 pairwise subset constraints {first-stage branch edge, second-stage branch edge}: a walk uses one branch per
+    stage, so it realises at most one constraint -- the minimum number of walks is exactly b1*b2 (closed form), although
+    the unconstrained minimum is max(b1, b2) + ... <= |E| - |V| + 2.  loop: the hub carries a self-loop used once by every walk."""
+    G = nx.DiGraph(); T = b1 * b2
+    for i in range(b1):
+        G.add_edge("s", "x%d" % i, flow=b2); G.add_edge("x%d" % i, "m", flow=b2)
+    for j in range(b2):
+        G.add_edge("m", "y%d" % j, flow=b1); G.add_edge("y%d" % j, "t", flow=b1)
+    if loop:
+        G.add_edge("m", "m", flow=T)
+    cons = [[("x%d" % i, "m"), ("m", "y%d" % j)] for i in range(b1) for j in range(b2)]
+    return G, cons, T
+
+
 def scaled(G, c, as_float=True):
     H = nx.DiGraph()
     for u, v, d in G.edges(data=True):
@@ -371,10 +424,15 @@ def run(ctx):
     import flowpaths as fp
     lpdump.install(); Hook.install(); Hook.ctx = ctx; Hook.e1_broken = False; Hook.e1_reports = 0
     ctx.rule = ("digraphs with cycles (<= 5 nodes, <= 9 edges; 80% with a cycle; self-loops, several sources/sinks) with flows = "
-                "superpositions of 1-3 weighted walks (int / dyadic float); kFlowDecompCycles with random k, ignore lists, subset "
+                "superpositions of 1-3 weighted walks (int / dyadic float); self-loop family (DAG skeleton + self-loops, distinct branch values, min-gen-set lower bound on) and staged-branch family with all pairwise subset constraints (minimum = product of branch counts); kFlowDecompCycles with random k, ignore lists, subset "
                 "constraints (coverage 1 / 0.5 / 0.75), the 64 safety option vectors, given weights; MinFlowDecompCycles incl. guessed "
                 "weights / min-gen-set lower bound; tiny instances (<= 6 edges, flows <= 3) against the exhaustive search; scale factors "
                 "1/4 1/2 2 2.5 4; non-trivial = LP with >= 2 layers or a cycle, or a solved instance with >= 2 walks")
+    import time as _t
+    _t0 = _t.time(); _marks = {}
+    def _mark(name):
+        nonlocal _t0
+        _marks[name] = round(_t.time() - _t0, 1); _t0 = _t.time()
     # ---- A: stand-alone kFlowDecompCycles: E1 on all option vectors, E2 on every solution
     nA = ctx.budget(150, 3000)
     for i in range(nA):
@@ -413,6 +471,7 @@ def run(ctx):
         ctx.case(["kfdc", describe(args)], nontrivial=nontriv,
                  sample={"edges": describe(args)["edges"], "k": k, "opts": describe(args)["optimization_options"], "lp_rows": rows})
 
+    _mark('A')
     # ---- B: MinFlowDecompCycles: E1 per k tried, E4 search, E2 solution, minimality on tiny instances
     nB = ctx.budget(70, 1500)
     for i in range(nB):
@@ -449,6 +508,7 @@ def run(ctx):
         ctx.case(["mfdc", describe(args)], nontrivial=True, sample={"edges": describe(args)["edges"], "opts": describe(args)["optimization_options"],
                                                                      "walks": res["k"], "ks": [r["k"] for r in res["log"]]})
 
+    _mark('B')
     # ---- C: scale invariance (float weights): same solvability, same number of walks
     nC = ctx.budget(16, 300)
     for i in range(nC):
@@ -489,9 +549,62 @@ def run(ctx):
                         "faithful_model": {"scale1": kf_1, "scaled": kf_c}}, key=(KEY_CAP if explained else None))
         ctx.case(["scale", describe(base)], nontrivial=True)
 
+    _mark('C')
+    # ---- F: graphs whose only cycles are self-loops, with the min-gen-set lower bound switched on (exhaustive optimum)
+    nF = ctx.budget(14, 300)
+    for i in range(nF):
+        rng = ctx.rng("selfloop", i)
+        G, walks, ws = selfloop_instance(rng)
+        as_float = rng.random() < 0.35
+        c = F(1)                 # (scaling is the subject of section C; large values would blow up the exhaustive search)
+        H = scaled(G, c, as_float=True) if as_float else G
+        opts = dict(gen2.rand_walk_opts(rng)) if rng.random() < 0.5 else {}
+        opts["use_min_gen_set_lowerbound"] = True
+        args = dict(G=H, flow_attr="flow", weight_type=float if as_float else int, optimization_options=opts, solver_options={"threads": THREADS})
+        res = solve_mfdc(ctx, args)
+        if "error" in res:
+            ctx.report("MinFlowDecompCycles raised " + res["error"], {"kind": "crash", "class": "MinFlowDecompCycles", "args": describe(args)}); continue
+        ctx.dist("selfloop:" + ("solved k=%d" % res["k"] if res["solved"] else "unsolved"))
+        e4_search(ctx, args, res)
+        if res["solved"]:
+            check_solution(ctx, "MinFlowDecompCycles", args, res["sol"])
+        flow = {(u, v): F(d["flow"]) * c for u, v, d in G.edges(data=True)}
+        check_minimality(ctx, args, res, flow, "real" if as_float else "int", label=" (self-loop family, min-gen-set lower bound on)")
+        ctx.case(["selfloop", describe(args)], nontrivial=True)
+
+    _mark('F')
+    # ---- G: staged branches with all pairwise subset constraints: the minimum is the product of the branch counts
+    shapes = [(2, 3, False), (2, 2, False), (3, 2, True), (1, 3, False), (2, 2, True), (2, 3, True), (3, 2, False), (1, 2, True)]
+    nG = ctx.budget(3, 40)
+    for i in range(nG):
+        rng = ctx.rng("staged", i)
+        b1, b2, loop = shapes[(i + ctx.seed) % len(shapes)] if i < len(shapes) else rng.choice(shapes)
+        G, cons, T = staged_instance(b1, b2, loop)
+        opts = dict(gen2.rand_walk_opts(rng)) if rng.random() < 0.4 else {}
+        is_int = rng.random() < 0.7
+        args = dict(G=G, flow_attr="flow", weight_type=int if is_int else float, subset_constraints=cons, optimization_options=opts,
+                    solver_options={"threads": THREADS})
+        res = solve_mfdc(ctx, args)
+        if "error" in res:
+            ctx.report("MinFlowDecompCycles raised " + res["error"], {"kind": "crash", "class": "MinFlowDecompCycles", "args": describe(args)}); continue
+        ctx.count("E2_staged_constraints", "cases")
+        e4_search(ctx, args, res)
+        if res["solved"]:
+            check_solution(ctx, "MinFlowDecompCycles", args, res["sol"])
+        if res["solved"] and res["k"] == T:
+            ctx.count("E2_staged_constraints", "agreements")
+        elif not presolve_false_infeasible(ctx, res):
+            ctx.report(f"MinFlowDecompCycles {'returns %d walks' % res['k'] if res['solved'] else 'is unsolved'} on the staged instance "
+                       f"{b1} x {b2} with all pairwise subset constraints, whose minimum is {T} walks (one per constraint; a walk realises at most one)",
+                       {"kind": "staged", "class": "MinFlowDecompCycles", "args": describe(args), "expected_walks": T,
+                        "ks_tried": [r["k"] for r in res["log"]], "statuses": [r["status"] for r in res["log"]]})
+        ctx.case(["staged", b1, b2, loop, describe(args)["optimization_options"], is_int], nontrivial=True)
+
+    _mark('G')
     # ---- D: the witness of Props/C04.v (WalkExamples.loop_inst) replayed on the implementation
     witness_replay(ctx)
 
+    _mark('D')
     # ---- E: the sibling encoder encode_kpcc (kPathCoverCycles) is kept tied as well (used by C09 / C01)
     nE = ctx.budget(30, 600)
     for i in range(nE):
@@ -513,6 +626,7 @@ def run(ctx):
             ctx.report("E1 correspondence broken: LP of kPathCoverCycles differs from WalkEncRows.encode_kpcc: " + "; ".join(d[:3]),
                        {"kind": "e1", "class": "kPathCoverCycles", "edges": [list(e) for e in G.edges()], "k": args["k"], "opts": o, "diff": d}, concrete=False)
         ctx.case(["kpcc", sorted(map(list, G.edges())), args["k"], sorted(o.items()), cons, ign], nontrivial=True)
+    _mark('E'); ctx.notes.append({"section_wall_s": _marks})
 
 
 def witness_replay(ctx):
@@ -564,6 +678,8 @@ def replay(ctx, body):
             rc = solve_mfdc(ctx, a2)
             if (rc.get("solved"), rc.get("k")) != (res["solved"], res["k"]):
                 return True
+        if kind == "staged":
+            return not (res["solved"] and res["k"] == body.get("expected_walks"))
         if kind == "unsolved" and not res["solved"]:
             cert = (cap_certificate(args["G"]) or caps_lp_certificate(args["G"])) if args["weight_type"] == float else None
             if cert is not None:
